@@ -1,13 +1,17 @@
 """Implementation side of the core-machine correspondence: build a real gateway, replay ops,
 render events and state exactly like Model/ShellGw.v does."""
 import asyncio
+import contextlib
 import os
+import re
 from unittest import mock
 
 from harness.core import enc_str, BUILD
 from harness.props.c02 import exc_name
 
 VERSIONS = ["1.4", "1.5", "2.0", "2.1", "2.2"]
+# lines that the MQTT topic mapping carries unchanged (canonical header, ack 0/1, payload without trailing blanks)
+_MQTT_LINE = re.compile(r"^(0|[1-9][0-9]{0,5});(0|[1-9][0-9]{0,5});(0|[1-9][0-9]{0,5});[01];(0|[1-9][0-9]{0,5});[^;\n/]*(?<![\s])\n?$")
 
 
 class RecTransport:
@@ -186,8 +190,16 @@ class Impl:
         start = len(self.log)
         kind = o[0]
         gw = self.gw
-        with mock.patch.object(handler.calendar, "timegm", lambda *_: self.clock):
-            if kind == "recv":
+        from mysensors import task as task_mod
+        ticks = iter(range(10 ** 9))
+        slow = mock.patch.object(task_mod, "timer", lambda: next(ticks) * 0.2) if self.cfg.get("slow_jobs") \
+            else contextlib.nullcontext()
+        with mock.patch.object(handler.calendar, "timegm", lambda *_: self.clock), slow:
+            if kind == "recv" and self.cfg.get("mqtt") and _MQTT_LINE.match(o[1]):
+                # a well-formed line arrives the way MQTT traffic does: topic + payload + qos through transport.recv
+                f = o[1].rstrip("\n").split(";", 5)
+                self._guard(lambda: gw.tasks.transport.recv("in/" + "/".join(f[:5]), f[5], int(f[3])))
+            elif kind == "recv":
                 self._guard(lambda: gw.tasks.add_job(gw.logic, o[1]))
             elif kind == "recvb":         # one line as raw bytes (no 0x0A inside) through the reader's protocol object
                 data = bytes(o[1]) + b"\n"
